@@ -61,6 +61,9 @@ class IourDriver:
 
     def resolver(self, callee):
         clean = strip_generics(callee)
+        m = re.match(r"^(?:driver::iour::)?Driver::(push_raw|poll_entries)$", clean)
+        if m:
+            return self.F("::" + m.group(1))
         if clean in ("more", "create_entry", "create_result"):
             c = [f for k, f in self.fns.items() if k == clean or k.endswith("iour::" + clean)]
             if len(c) == 1:
@@ -123,7 +126,7 @@ class IourDriver:
             return ["cq", 0]
 
         def s_is_empty(I, a, p, c):
-            return z3.BoolVal(len(W.queue) == 0)
+            return z3.BoolVal(W.cq_pos >= len(W.queue))
 
         def s_unit(I, a, p, c):
             return UNIT
@@ -131,11 +134,12 @@ class IourDriver:
         def s_identity(I, a, p, c):
             return a[0]
 
+        W.cq_pos = 0          # the completion queue is consumed: an entry is seen once, whoever iterates
+
         def s_next(I, a, p, c):
-            it = a[0].cell.v
-            if it[1] < len(W.queue):
-                e = W.queue[it[1]]
-                it[1] += 1
+            if W.cq_pos < len(W.queue):
+                e = W.queue[W.cq_pos]
+                W.cq_pos += 1
                 return EnumV(1, [Cell(("cqe", e))])
             return EnumV(0)
 
@@ -214,7 +218,64 @@ class IourDriver:
             # io_uring::cqueue::more(flags) = flags & IORING_CQE_F_MORE != 0 (kernel ABI: bit 1)
             return (a[0] & z3.BitVecVal(CQE_F_MORE, a[0].size())) != z3.BitVecVal(0, a[0].size())
 
+        W.sq_pushes = 0
+        W.sq_room_after = getattr(W, "sq_room_after", 0)
+        W.new_key = getattr(W, "new_key", None)
+        W.new_key_dropped = 0
+
+        def s_as_raw(I, a, p, c):
+            v = a[0].cell.v if isinstance(a[0], Ref) else a[0]
+            return z3.BitVecVal(v[1], 64)
+
+        def s_into_raw(I, a, p, c):
+            v = a[0]
+            k = v[1]
+            W.leaked[k] = W.leaked.get(k, 0) + 1
+            W.consumed_new_key = True
+            return z3.BitVecVal(k, 64)
+
+        def s_sq_push(I, a, p, c):
+            # the submission queue has room after `sq_room_after` rounds of submit + reap (explorer's choice)
+            W.sq_pushes += 1
+            if W.sq_pushes > W.sq_room_after:
+                return EnumV(0, [Cell(UNIT)])
+            return EnumV(1, [Cell(("push-error",))])
+
+        def s_submit_auto(I, a, p, c):
+            k = p.choose(3, "submit_auto result")
+            if k == 0:
+                return EnumV(0, [Cell(UNIT)])
+            if k == 1:
+                return EnumV(1, [Cell(("io-error", 22))])       # TimedOut: treated as "go on"
+            W.submit_failed = True
+            return EnumV(1, [Cell(("io-error", 1))])            # a real error: push_raw gives up
+
+        def s_err_kind(I, a, p, c):
+            e = a[0].cell.v if isinstance(a[0], Ref) else a[0]
+            return EnumV(e[1])
+
+        def s_set_insert(I, a, p, c):
+            k = key_of(a[1])
+            new = k not in W.in_flight
+            W.in_flight.add(k)
+            return z3.BoolVal(new)
+
+        def s_try_branch(I, a, p, c):
+            r = a[0]
+            return EnumV(0, [Cell(r.fields[0].v if r.fields else UNIT)]) if r.variant == 0 else EnumV(1, [Cell(r)])
+
+        def s_from_residual(I, a, p, c):
+            r = a[0]
+            return EnumV(1, [Cell(r.fields[0].v)]) if isinstance(r, EnumV) and r.fields else EnumV(1, [Cell(("io-error", 1))])
+
         S = [
+            (r"^ErasedKey::as_raw$", s_as_raw), (r"^ErasedKey::into_raw$", s_into_raw),
+            (r"squeue::Entry::user_data$", s_identity), (r"^IoUring(?:::<.*>)?::submission$", s_completion),
+            (r"^SubmissionQueue::<.*>::push$", s_sq_push), (r"^SubmissionQueue::<.*>::sync$", s_unit),
+            (r"^std::mem::drop::<SubmissionQueue<.*>>$", s_unit),
+            (r"^(?:driver::iour::)?Driver::submit_auto$", s_submit_auto), (r"^std::io::Error::kind$", s_err_kind),
+            (r"^HashSet::<usize>::insert$", s_set_insert),
+            (r" as Try>::branch$", s_try_branch), (r" as FromResidual<.*>>::from_residual$", s_from_residual),
             (r"^(?:io_uring::cqueue::)?more$", s_more),
             (r"ManuallyDrop<IoUring.*> as DerefMut>::deref_mut$", s_identity),
             (r"^IoUring(?:::<.*>)?::completion$", s_completion),
@@ -233,7 +294,12 @@ class IourDriver:
             (r"^create_result$", s_ok_unit),
         ]
         I = Interp(self.fns, self.consts, S, resolver=self.resolver)
-        I.drop_hook = lambda *a: None
+
+        def drop_hook(I_, v, p, ty):
+            if isinstance(v, tuple) and v and v[0] == "key" and W.new_key is not None and v[1] == W.new_key:
+                W.new_key_dropped += 1
+            return None
+        I.drop_hook = drop_hook
         return I
 
     def const_value(self, name):
@@ -278,4 +344,36 @@ class IourDriver:
         obs.append(("nothing is left in in_flight", z3.BoolVal(len(W.in_flight) == 0)))
         return obs
 
-    CHECKS = ["poll_entries", "drop"]
+    def check_push(self, p, nkeys=1, max_entries=2):
+        """push_raw_with_key: a new operation is handed to the ring; the queue may be full for a while (submit + reap in between)"""
+        W = self.world(p, nkeys, max_entries)
+        W.new_key = 0x9000
+        W.sq_room_after = p.choose(3, "rounds until the submission queue has room")
+        W.submit_failed = False
+        W.consumed_new_key = False
+        fn = self.F("::push_raw_with_key")
+        I = self.interp(W, fn)
+        r = I.run_to_end(I.call_fn(fn, [Ref(Cell(self.driver_obj(W))), ("sqe",), ("key", W.new_key)], p))
+        self.encoded |= I.called
+        ok = isinstance(r, EnumV) and r.variant == 0
+        obs = [("nothing is re-materialised twice while the queue is reaped during the retry", z3.BoolVal(W.violation is None)),
+               ("push fails only if a submit failed with a real error", z3.BoolVal(ok or W.submit_failed))]
+        if ok:
+            obs.append(("accepted: exactly one reference to the new operation is leaked to the kernel", z3.BoolVal(W.leaked.get(W.new_key, 0) == 1)))
+            obs.append(("accepted: the operation is recorded as in flight", z3.BoolVal(W.new_key in W.in_flight)))
+            obs.append(("accepted: the caller's key was consumed, not dropped", z3.BoolVal(W.consumed_new_key and W.new_key_dropped == 0)))
+        else:
+            obs.append(("rejected: no reference is leaked", z3.BoolVal(W.leaked.get(W.new_key, 0) == 0)))
+            obs.append(("rejected: the operation is not recorded as in flight", z3.BoolVal(W.new_key not in W.in_flight)))
+        # the retry path reaps completions: the older operations obey the same rule as in poll_entries
+        reaped = W.sq_room_after > 0
+        for k in W.keys:
+            fin = k in W.finals
+            if reaped:
+                obs.append(("older operation %#x: reference back iff its final completion was reaped (or nothing reaped yet)" % k,
+                            z3.BoolVal(W.leaked[k] in ((0, 1) if fin else (1,)))))
+            else:
+                obs.append(("older operation %#x untouched when the queue had room at once" % k, z3.BoolVal(W.leaked[k] == 1 and k in W.in_flight)))
+        return obs
+
+    CHECKS = ["poll_entries", "drop", "push"]
